@@ -270,4 +270,15 @@ def run(ctx):
         Pc = ctx.prog(cfg)
         ctx.guard("guard", "cipher-ctors@" + cfg, lambda: check_cipher_ctor_guards(ctx, Pc, cfg))
     ctx.guard("total", "x25519", lambda: C12.check_total(ctx, P, ["curve25519::curve25519", "curve25519::curve25519_base"]))
-    ctx.not_decided += ["absence of overflow / bounds panics in general (interval obligations are not discharged crate-wide)", "extents of the unsafe raw-pointer accesses beyond their dominating guards", "value equality between debug and release builds beyond the counter / wrap rules"]
+    # overflow-assert discharge where limb arithmetic makes it non-obvious (interval abstract interpretation, shared rule
+    # instances): with these, debug and release builds compute the same values in Poly1305, both field backends and the
+    # 32-bit scalar code, for every input and history
+    from . import polybounds, febounds, sc32
+    ctx.guard("bounds", "poly1305", lambda: polybounds.check(ctx, P))
+    ctx.guard("fe-bounds", "fe64", lambda: febounds.check_fe64(ctx, P, "K0"))
+    P2 = ctx.prog("K2")
+    ctx.guard("fe-bounds", "fe32", lambda: febounds.check_fe32(ctx, P2, "K2"))
+    ctx.guard("sc", "scalar32::reduce", lambda: sc32.check_scalar32(ctx, P2, "reduce"))
+    ctx.guard("sc", "scalar32::muladd", lambda: sc32.check_scalar32(ctx, P2, "muladd"))
+    ctx.guard("total", "x25519/K2", lambda: C12.check_total(ctx, P2, ["curve25519::curve25519", "curve25519::curve25519_base"]))
+    ctx.not_decided += ["absence of overflow / bounds panics outside Poly1305, the field backends and scalar32 (interval obligations are not discharged crate-wide)", "extents of the unsafe raw-pointer accesses beyond their dominating guards", "value equality between debug and release builds beyond the counter / wrap rules"]
